@@ -164,6 +164,8 @@ def run(tier, seed, replay=None):
             lost = r.get("lost_at", -1)
             expect_failed = 1 if (sc["driver"] in ("tridonic", "hasseb") and limit is not None and r.get("lost_at", -1) >= 0
                                   and not r.get("returned_in_time", True)) else 0
+            if expect_failed and r["now"] - r["lost_at"] < (limit + 1) * sc.get("reconnect_interval", 1) + 0.5:
+                expect_failed = -1      # the run ended before the attempts could run out: neither required nor forbidden
             s = {k: v for k, v in r.items() if k not in ("scenario", "writes", "traffic", "events")}
             tl = r["out"].get("tail", {})
             s["status"] = [[us(t), st] for t, st in r["status"][:tl.get("status_len", len(r["status"]))]]
@@ -194,9 +196,9 @@ def run(tier, seed, replay=None):
                     "gateway stayed silent; every run ends with the device back and 300 (serial: 5-20) further sends")
         out.extra["by_tag"] = {t: sum(1 for s_ in scs if s_["tag"].split(":")[0] == t) for t in
                                ("hid", "cancel", "dt-retry", "silent-confirm", "silent-answer", "serial-cancel")}
-        out.extra["expect_failed_runs"] = sum(s_["params"]["expect_failed"] for s_ in slim)
+        out.extra["expect_failed_runs"] = sum(1 for s_ in slim if s_["params"]["expect_failed"] == 1)
         byid = {r["id"]: r for r in recs}
-        s0 = recs[1]
+        s0 = recs[min(1, len(recs) - 1)]
         out.samples = [{"scenario": s0["scenario"], "status": s0["status"], "opens": s0["opens"],
                         "callers": [[c["name"], c["exc"]] for c in s0["callers"]], "tail": s0["out"].get("tail")}]
         out.assumptions = ["loss = reads return EOF or raise OSError and writes raise OSError on the fake hidraw node",
